@@ -163,6 +163,7 @@ def thrust_unit(h):
         alt = args[0]
         return SArr(alt.length, lambda kk: (h.ctx.axiom(PRES(to_real(alt.at(kk))) > 0), PRES(to_real(alt.at(kk))))[1])
     h.summary('AEIC.utils.standard_atmosphere:pressure_at_altitude_isa_bada4', pressure)
+    fb0, em0 = dict(fb.attrs), dict(em.attrs)
     try:
         thr = h.I.call(h.I.getattr(fb, 'calculate_thrust'), [a['mass'], a['temperature'], a['altitude'], a['tas'], a['rocd'], a['acceleration'], cruise], {})
         sgr = h.I.call(h.I.getattr(fb, 'calculate_specific_ground_range'),
@@ -175,6 +176,11 @@ def thrust_unit(h):
         else:
             h.fail('no-internal-error', f'{e.inst!r} at {e.inst.where}')
         return
+    # thrust and fuel flow are functions of the arguments and the aircraft parameters: a query leaves nothing behind on the
+    # model object that a later query (another temperature profile, another pass of the mass iteration) could pick up
+    changed = [f'{nm}.{k2}' for nm, o, o0 in (('model', fb, fb0), ('engine', em, em0)) for k2 in set(o.attrs) | set(o0)
+               if k2 not in o0 or k2 not in o.attrs or o.attrs[k2] is not o0[k2]]
+    h.ensure('a-query-leaves-the-model-object-as-it-was', not changed, note='changed: ' + ', '.join(sorted(changed)))
     k = h.ctx.fresh('k', Z)
     h.ctx.assume(z3.And(k >= 0, k < n))
     m, T, alt, tas, rocd, acc, gs = (elem(a[x], k) for x in ('mass', 'temperature', 'altitude', 'tas', 'rocd', 'acceleration', 'groundspeed'))
@@ -208,8 +214,7 @@ def mass_update(h):
     h.assume(n >= 2)
     mass = SArr.symbolic(h.ctx, 'mass', n)
     sgr = SArr.symbolic(h.ctx, 'specific_ground_range', n, where=lambda x: x >= 0)
-    dx = h.real('segment_distance')
-    h.assume(dx >= 0, 'segment distance >= 0')
+    dx, dx_at = segment_distances(h, n)
     m_first, m_last = to_real(mass.at(0)), to_real(mass.at(n - 1))
     h.trust('scipy.integrate.cumulative_trapezoid(y, dx) by its defining recurrence; 1/inf = 0')
     r = h.method(fbm, 'update_mass_vector_backward' if backward else 'update_mass_vector', mass, sgr, dx)
@@ -218,9 +223,21 @@ def mass_update(h):
     h.ctx.assume(z3.And(k >= 0, k < n - 1))
     rk, rk1 = to_real(r.at(k)), to_real(r.at(k + 1))
     h.ensure('anchor-mass-kept', (to_real(r.at(n - 1)) == m_last) if backward else (to_real(r.at(0)) == m_first))
-    h.ensure('decrease-over-each-step-is-the-trapezoid-of-fuel-per-distance', rk - rk1 == dx * (inv(k) + inv(k + 1)) / 2)
+    h.ensure('decrease-over-each-step-is-the-trapezoid-of-fuel-per-distance', rk - rk1 == dx_at(k) * (inv(k) + inv(k + 1)) / 2)
     h.ensure('mass-never-increases', rk1 <= rk)
     h.ensure('returns-the-updated-vector-itself', r is mass)
+
+
+def segment_distances(h, n):
+    """The segment length: one number for all segments, or one number per segment (both documented: Union[float, NDArray])."""
+    if h.choice(2) == 0:
+        dx = h.real('segment_distance')
+        h.assume(dx >= 0, 'segment distance >= 0')
+        h.ctx.named['segment_distance_kind'] = z3.StringVal('one number')
+        return dx, (lambda k: dx)
+    arr = SArr.symbolic(h.ctx, 'segment_distance', n - 1, where=lambda x: x >= 0)
+    h.ctx.named['segment_distance_kind'] = z3.StringVal('one number per segment')
+    return arr, (lambda k: to_real(arr.at(k)))
 
 
 def driver_unit(which):
@@ -233,8 +250,7 @@ def driver_unit(which):
         names = ['temperature', 'altitude', 'v_tas', 'rocd', 'acceleration', 'groundspeed']
         a = {nm: SArr.symbolic(h.ctx, nm, n) for nm in names}
         cruise = SArr.symbolic(h.ctx, 'in_cruise', n, sort=z3.BoolSort())
-        dx = h.real('segment_distance')
-        h.assume(dx >= 0)
+        dx, dx_at = segment_distances(h, n)
         calls = []
 
         def sgr_contract(I_, fi, args, kw):
@@ -245,7 +261,12 @@ def driver_unit(which):
         h.trust('calculate_specific_ground_range by its contract (own unit): an array of the profile length, values >= 0')
         n_iter = 1 + h.choice(3)
         h.ctx.named['n_iter'] = z3.IntVal(n_iter)
-        m0 = h.real('prescribed_mass')
+        # the prescribed mass is a Python number: a float, or an int (e.g. 60000)
+        if h.choice(2) == 0:
+            m0 = h.real('prescribed_mass')
+        else:
+            m0 = h.int('prescribed_mass')
+            h.ctx.named['prescribed_mass_is_a_python_int'] = z3.BoolVal(True)
         h.assume(m0 > 0)
         args = [a['temperature'], a['altitude'], a['v_tas'], a['rocd'], a['acceleration'], cruise, a['groundspeed'], dx]
         kw = dict(n_iter=n_iter)
@@ -259,7 +280,7 @@ def driver_unit(which):
             h.fail('no-internal-error', f'{e.inst!r} at {e.inst.where}')
             return
         mtow = h.ctx.named.get('mtow')
-        finish(h, which, r, calls, n, dx, m0, mtow, n_iter)
+        finish(h, which, r, calls, n, dx_at, m0, mtow, n_iter)
     return u
 
 
@@ -276,14 +297,14 @@ def run_driver(h, which, fbm, args, kw, m0):
         return r
 
 
-def finish(h, which, r, calls, n, dx, m0, mtow, n_iter):
+def finish(h, which, r, calls, n, dx_at, m0, mtow, n_iter):
     if True:
         sgr = calls[-1][1]
         inv = lambda j: z3.If(to_real(sgr.at(j)) < 1, z3.RealVal(0), 1 / to_real(sgr.at(j)))     # noqa
         k = h.ctx.fresh('k', Z)
         h.ctx.assume(z3.And(k >= 0, k < n - 1))
         rk, rk1 = to_real(r.at(k)), to_real(r.at(k + 1))
-        h.ensure('returned-profile-decreases-by-the-trapezoid-over-each-step', rk - rk1 == dx * (inv(k) + inv(k + 1)) / 2,
+        h.ensure('returned-profile-decreases-by-the-trapezoid-over-each-step', rk - rk1 == dx_at(k) * (inv(k) + inv(k + 1)) / 2,
                  note=f'n_iter={n_iter}')
         h.ensure('returned-profile-never-increases', rk1 <= rk, note=f'n_iter={n_iter}')
         if which == 'constant_initial_mass':
@@ -343,6 +364,29 @@ def replay(payload):
             steps = 1000.0 * (inv[:-1] + inv[1:]) / 2
             if not np.allclose(back[:-1] - back[1:], steps, rtol=1e-12):
                 bad.append(f'{eng}: backward update steps {list(back[:-1] - back[1:])} instead of {list(steps)}')
+            # the same model object queried again with the same altitude profile but ISA + 18 K: what it returns must be what
+            # a fresh model object returns (nothing remembered from the earlier queries)
+            T2 = T + 18.0
+            again = fb.calculate_thrust(mass, T2, alt, tas, rocd, acc, crz)
+            fresh = Bada3FuelBurnModel(p).calculate_thrust(mass, T2, alt, tas, rocd, acc, crz)
+            if not np.array_equal(again, fresh):
+                bad.append(f'{eng}: thrust for a second temperature profile on a used model object {list(np.round(again[:3], 3))} '
+                           f'differs from a fresh model object {list(np.round(fresh[:3], 3))}')
+            # one length per segment (documented: Union[float, NDArray]), forwards and backwards
+            d = np.array([1000.0, 5000.0, 20000.0, 500.0])
+            steps_d = d * (inv[:-1] + inv[1:]) / 2
+            for nm, got in (('forward', fb.update_mass_vector(np.array([60000.0, 0, 0, 0, 0]), sg, d)),
+                            ('backward', fb.update_mass_vector_backward(np.array([0, 0, 0, 0, 50000.0]), sg, d))):
+                if not np.allclose(got[:-1] - got[1:], steps_d, rtol=1e-12):
+                    bad.append(f'{eng}: {nm} update with per-segment lengths {d.tolist()}: steps {np.round(got[:-1] - got[1:], 3).tolist()} '
+                               f'instead of the trapezoids {np.round(steps_d, 3).tolist()}')
+            # the prescribed mass given as a Python int
+            for nm, fn, anchor in (('constant_initial_mass', fb.iterate_flight_simulation_constant_initial_mass, 0),
+                                   ('constant_final_mass', fb.iterate_flight_simulation_constant_final_mass, -1)):
+                pi = fn(T, alt, tas, rocd, acc, crz, gs, 50000.0, 60000)
+                pf = fn(T, alt, tas, rocd, acc, crz, gs, 50000.0, 60000.0)
+                if not np.allclose(pi, pf, rtol=1e-12):
+                    bad.append(f'{eng}: {nm} with the mass given as the int 60000 returns {pi[:3].tolist()}, as the float 60000.0 {np.round(pf[:3], 3).tolist()}')
             fwd = fb.update_mass_vector(m, sg, 1000.0)
             if not np.allclose(fwd[:-1] - fwd[1:], steps, rtol=1e-12):
                 bad.append(f'{eng}: forward update steps wrong')
